@@ -570,6 +570,17 @@ def text_history_cases(tier, rng):
     }
     nsteps = 2 if tier == "quick" else 3
     cases = []
+    # observers applied directly to literals and constants-like expressions (no variable in between)
+    for li, s_ in enumerate(inits + ["häßlich", "€€€", "x😀y😀"]):
+        L_ = lit(T(s_))
+        cases.append(Case("lit:len:%d" % li, un("len", L_), TZ))
+        cases.append(Case("lit:len-paren:%d" % li, un("len", bin_("cat", L_, lit(T("")))), TZ))
+        cases.append(Case("lit:eq:%d" % li, bin_("eq", L_, lit(T(s_))), TW))
+        for i in range(1, len(s_) + 1):
+            cases.append(Case("lit:idx:%d:%d" % (li, i), cast(TZ, bin_("idx", L_, zl(i))), TZ))
+            cases.append(Case("lit:sfrom:%d:%d" % (li, i), bin_("sfrom", L_, zl(i)), TT))
+            cases.append(Case("lit:slice:%d:%d" % (li, i), ter("slice", L_, zl(i), un("len", L_)), TT))
+        cases.append(Case("lit:each:%d" % li, ident("acc"), TT, acc_init() + [{"k": "foreach", "v": "c", "t": TC, "idx": "ix", "in": L_, "body": [acc_add(bin_("cat", as_text(ident("ix")), ident("c")))]}]))
     for init in inits:
         for n in range(0, nsteps + 1):
             for hist in itertools.product(sorted(steps), repeat=n):
